@@ -12,8 +12,10 @@ import PromModel.Labels.StableHash
   ops (db cases):
     `series <h|b|hb> <labels>`     declare series k (k = number of earlier `series` lines): samples only in the
                                    head, only in the block, or in both.                out: `ok`
-    `build <0|1>`                  open a tsdb.DB with EnableSharding = flag, write the block series, compact them
-                                   into a block, write the head series.                out: `ok blocks=<0|1>`
+    `build <0|1|2>`                open a tsdb.DB with EnableSharding = (flag ≠ 0), write the block series, compact
+                                   them into a block, write the head series (2: an out-of-order window is configured
+                                   and half of the head series get an OOO sample — same series sets, other readers).
+                                                                                       out: `ok blocks=<0|1>`
     `restart`                      close and reopen (WAL replay).                      out: `ok`
     `sel <head|block|both> <q|c> <n> <matcher>`
                                    sorted Select (Querier or ChunkQuerier) without hints and with
@@ -186,7 +188,7 @@ def parseOp (line : String) : Op :=
     match p, parseLabels? ls with
     | some p, some ls => .series p ls
     | _, _ => .bad
-  | ["build", f] => if f = "1" then .build true else if f = "0" then .build false else .bad
+  | ["build", f] => if f = "1" || f = "2" then .build true else if f = "0" then .build false else .bad
   | ["restart"] => .restart
   | ["sel", w, qc, n, m] =>
     let w : Option Where := match w with
